@@ -1444,16 +1444,19 @@ package asm
 //@ # ---------------------------------------------------------------- C17 / C20 (scaffolds of metadata definitions and attribute groups) ---
 //@ # One scaffold per indexed ID, carrying that ID: what addMetadataDefsToModule / addAttrGroupDefsToModule rely on.
 //@ func newSpecializedMDNode
-//@   trusted
+//@   props C17 C20
+//@   partial
 //@   assigns nothing
 //@   ensures result != nil && fresh(ptrof(result))
 //@ # (assumed: newMetadataDef calls SetID(id) on the new node; the step from the identifier field written by
 //@ # (*MetadataID).SetID -- under contract in ir/metadata -- to the abstract mdid is the meta-argument of DESIGN 10.6)
 //@ func newMetadataDef
-//@   trusted
+//@   props C17 C20
+//@   partial
 //@   requires old != nil && (typeis(old.MDNode(), "*ast.MDTuple") || typeis(old.MDNode(), "ast.SpecializedMDNode"))
 //@   assigns nothing
-//@   ensures result != nil && mdid(result) == id
+//@   ensures result != nil && fresh(ptrof(result))
+//@   assumed ensures mdid(result) == id
 //@ func (*generator).createMetadataDefs
 //@   props C17 C20
 //@   requires gen != nil && gen.old.metadataDefs != nil && gen.new.metadataDefs != nil
